@@ -527,14 +527,15 @@ def r136(ctx, R):
         for node in own_nodes(f.node):
             if not isinstance(node, ast.If):
                 continue
-            pts = [p for p in _prefix_tests(node.test) if p[2]]
+            ptest, pbody, _pelse = C.pos_if(node)
+            pts = [p for p in _prefix_tests(ptest) if p[2]]
             if len(pts) != 1:
                 continue
             recv, lit, _ = pts[0]
             n += 1
             # slices of the same receiver in the taken branch
             bad = []
-            for st in node.body:
+            for st in pbody:
                 for x in ast.walk(st):
                     if isinstance(x, ast.Subscript) and src(
                             x.value) == recv and isinstance(
@@ -558,7 +559,7 @@ def r136(ctx, R):
                  func=f, node=node)
             # polarity: names with "forbidden" are fed only under '!'
             assigned = set()
-            for st in node.body:
+            for st in pbody:
                 for x in ast.walk(st):
                     if isinstance(x, ast.Assign):
                         for t in x.targets:
@@ -588,12 +589,12 @@ def r136(ctx, R):
             if len(pts) == 1 and not C.guarding_ifs(node, f.node):
                 cur = node
                 while True:
-                    p = [x for x in _prefix_tests(cur.test) if x[2]]
+                    ct, _cb, celse = C.pos_if(cur)
+                    p = [x for x in _prefix_tests(ct) if x[2]]
                     if len(p) == 1:
                         chain.append(p[0][1])
-                    if len(cur.orelse) == 1 and isinstance(
-                            cur.orelse[0], ast.If):
-                        cur = cur.orelse[0]
+                    if len(celse) == 1 and isinstance(celse[0], ast.If):
+                        cur = celse[0]
                     else:
                         break
                 break
